@@ -12,7 +12,7 @@ struct ByKeyLess { bool operator()(const Item& a, const Item& b) const { return 
 struct ByKeyGreaterMirror { bool operator()(const Item& a, const Item& b) const { return -a.key > -b.key; } };
 struct ByKeyWeak { bool operator()(const Item& a, const Item& b) const { return a.key < b.key; } };   // ids never consulted: equal keys are equivalent
 
-static const char* NAMES[] = {"push", "push", "top", "pop", "pop", "build", "build", "build", "update_all", "clear"};
+static const char* NAMES[] = {"push", "push", "top", "pop", "pop", "build", "build", "build", "update_all", "clear", "reserve"};
 static std::string pairs(const std::vector<Item>& v) {
     std::string s = "[";
     for (size_t i = 0; i < v.size(); ++i) s += std::string(i ? "," : "") + "[" + std::to_string(v[i].key) + "," + std::to_string(v[i].id) + "]";
@@ -50,6 +50,7 @@ static void run(Out& out, int variant, std::istringstream& is) {
         case 7: { ev.raw("list", pairs(list)); std::vector<Item> tmp = list; hp.build_heap(std::move(tmp)); break; }
         case 8: hp.update_all(); break;
         case 9: hp.clear(); break;
+        case 10: hp.reserve(static_cast<size_t>(k)); ev.num("cap", (long long)hp.capacity()); break;      // no abstract effect; capacity() >= k afterwards
         }
         emit(ev);
     }
